@@ -80,15 +80,45 @@ Qed.
 
 Definition ff_free (globs : list bytes) : Prop := forall p, In p globs -> prefix_ends_ff p = false.
 
+(* ---------- Model.GlobSel's walks without a field filter, LIMIT above the number of entries ---------- *)
+
+Lemma filter_length_le {A} (f : A -> bool) l : (length (filter f l) <= length l)%nat.
+Proof. induction l as [|x r IH]; cbn; [lia|]. destruct (f x); cbn; lia. Qed.
+
+Lemma scan_sel_nofilter globs : forall l, filter (scan_sel globs no_filter) l = filter (glob_test globs) l.
+Proof. intros l. apply filter_ext. intros x. unfold scan_sel, no_filter. apply andb_true_r. Qed.
+
+Lemma search_sel_nofilter globs : forall l : list ventry,
+  filter (search_sel globs no_filter) l = filter (fun e : ventry => glob_test globs (fst e)) l.
+Proof. intros l. apply filter_ext. intros x. unfold search_sel, no_filter. apply andb_true_r. Qed.
+
+Lemma firstn_filter_all {A} (f : A -> bool) (l : list A) (limit : N) :
+  N.of_nat (length l) < limit -> firstn (N.to_nat limit) (filter f l) = filter f l.
+Proof. intros H. apply firstn_all2. pose proof (filter_length_le f l). lia. Qed.
+
 (* ---------- SCAN ---------- *)
 
-Lemma coll_scan_ids_exact c globs desc : Wf c -> ff_free globs ->
-  coll_scan_ids globs desc c = map o_id (filter (scan_hit globs) (dir desc (scan_ids c))).
+Lemma coll_scan_ids_exact c globs desc lim : Wf c -> ff_free globs -> N.of_nat (length (scan_ids c)) < lim ->
+  coll_scan_ids globs desc c lim = map o_id (filter (scan_hit globs) (dir desc (scan_ids c))).
 Proof.
-  intros W Hff. unfold coll_scan_ids, scan_ids, scan_hit.
-  rewrite (scan_multi_exact _ _ _ (ids_bsorted c W) Hff).
-  change (if desc then rev (map o_id (c_objs c)) else map o_id (c_objs c)) with (dir desc (map o_id (c_objs c))).
-  rewrite dir_map. apply filter_map_comm.
+  intros W Hff Hl. unfold coll_scan_ids, scan_ids in *.
+  destruct (scan_multi_exact globs no_filter lim desc _ (ids_bsorted c W) Hff ltac:(lia)) as [H _].
+  rewrite H, scan_sel_nofilter. unfold scan_hit.
+  rewrite firstn_filter_all.
+  - destruct desc; cbn [dir]; [rewrite <- map_rev|]; apply filter_map_comm.
+  - destruct desc; [rewrite rev_length|]; rewrite map_length; exact Hl.
+Qed.
+
+Lemma coll_scan_count_iter c globs desc limit : Wf c -> ff_free globs -> 1 <= limit ->
+  out_count (scan_multi globs no_filter limit true desc (map o_id (scan_ids c))) =
+  N.min limit (N.of_nat (length (filter (scan_hit globs) (scan_ids c)))).
+Proof.
+  intros W Hff Hl. unfold scan_ids.
+  destruct (scan_multi_exact globs no_filter limit desc _ (ids_bsorted c W) Hff Hl) as [_ H].
+  rewrite H, scan_sel_nofilter. f_equal. f_equal. unfold scan_hit.
+  transitivity (length (filter (glob_test globs) (map o_id (c_objs c)))).
+  - destruct desc; [|reflexivity]. rewrite filter_rev_comm, rev_length. reflexivity.
+  - rewrite filter_map_comm, map_length. reflexivity.
 Qed.
 
 Lemma objs_NoDup c : Wf c -> NoDup (map o_id (c_objs c)).
@@ -97,15 +127,15 @@ Proof. intros W. apply (ssorted_NoDup o_id id_cmp order_bytes). apply (wf_objs c
 Lemma cget_spec c : Wf c -> forall id o, cget c id = Some o <-> (In o (c_objs c) /\ o_id o = id).
 Proof. intros W id o. unfold cget. apply get_spec; [exact order_bytes | apply (wf_objs c W)]. Qed.
 
-Theorem coll_scan_reach c globs desc : Wf c -> ff_free globs ->
-  let reached := coll_scan_ids globs desc c in
+Theorem coll_scan_reach c globs desc lim : Wf c -> ff_free globs -> N.of_nat (length (scan_ids c)) < lim ->
+  let reached := coll_scan_ids globs desc c lim in
   reached = map o_id (filter (scan_hit globs) (dir desc (scan_ids c))) /\
   (forall id, In id reached <-> exists o, cget c id = Some o /\ glob_test globs id = true) /\
   NoDup reached /\
-  (forall limit, coll_scan_count globs desc c limit =
+  (forall limit, 1 <= limit -> coll_scan_count globs desc c limit =
                  N.min limit (N.of_nat (length (filter (scan_hit globs) (scan_ids c))))).
 Proof.
-  intros W Hff reached. pose proof (coll_scan_ids_exact c globs desc W Hff) as E. fold reached in E.
+  intros W Hff Hlim reached. pose proof (coll_scan_ids_exact c globs desc lim W Hff Hlim) as E. fold reached in E.
   split; [exact E|]. split; [|split].
   - intros id. rewrite E, in_map_iff. split.
     + intros [o [Hid Ho]]. apply filter_In in Ho as [Ho Hh]. apply dir_In in Ho. exists o. split.
@@ -114,27 +144,29 @@ Proof.
     + intros [o [Hg Ht]]. apply (cget_spec c W) in Hg as [Ho Hid]. exists o. split; [exact Hid|].
       apply filter_In. split; [apply dir_In; exact Ho|]. unfold scan_hit. rewrite Hid. exact Ht.
   - rewrite E. apply NoDup_map_filter. rewrite <- dir_map. apply dir_NoDup. apply (objs_NoDup c W).
-  - intros limit. unfold coll_scan_count. destruct (glob_everything globs) eqn:Ge.
+  - intros limit Hl. unfold coll_scan_count. destruct (glob_everything globs) eqn:Ge.
     + destruct (counters_are_lengths c W) as [_ Hc]. unfold scan_count_shortcut. rewrite Hc.
       rewrite (shortcut_is_iter _ 0 limit (scan_ids c) eq_refl), iter_count_0.
       rewrite filter_all; [reflexivity|]. intros o. apply everything_test. exact Ge.
-    + fold reached. rewrite iter_count_0, E, map_length, dir_length. reflexivity.
+    + apply coll_scan_count_iter; assumption.
 Qed.
 
 (* ---------- SEARCH ---------- *)
 
 Definition value_hit (globs : list bytes) (o : obj) : bool := glob_test globs (o_str o).
 
-Lemma coll_search_ids_exact c globs desc : Wf c -> ff_free globs ->
-  coll_search_ids globs desc c = map o_id (filter (value_hit globs) (dir desc (search_values c))).
+Lemma search_entries_exact globs (l : list obj) :
+  map snd (filter (fun e : ventry => glob_test globs (fst e)) (map vkey l)) = map o_id (filter (value_hit globs) l).
+Proof. rewrite filter_map_comm, map_map. reflexivity. Qed.
+
+Lemma coll_search_ids_exact c globs desc lim : Wf c -> ff_free globs -> N.of_nat (length (search_values c)) < lim ->
+  coll_search_ids globs desc c lim = map o_id (filter (value_hit globs) (dir desc (search_values c))).
 Proof.
-  intros W Hff. unfold coll_search_ids, search_values.
-  rewrite (search_multi_exact _ _ _ (values_vsorted c W) Hff).
-  assert (E : forall l : list obj,
-             map snd (filter (fun e : ventry => glob_test globs (fst e)) (map vkey l)) =
-             map o_id (filter (value_hit globs) l)).
-  { intros l. rewrite filter_map_comm, map_map. reflexivity. }
-  destruct desc; cbn [dir]; [rewrite <- map_rev|]; apply E.
+  intros W Hff Hl. unfold coll_search_ids, search_values in *.
+  destruct (search_multi_exact globs no_filter lim desc _ (values_vsorted c W) Hff ltac:(lia)) as [H _].
+  rewrite H, search_sel_nofilter. rewrite firstn_filter_all.
+  - destruct desc; cbn [dir]; [rewrite <- map_rev|]; apply search_entries_exact.
+  - destruct desc; [rewrite rev_length|]; rewrite map_length; exact Hl.
 Qed.
 
 Lemma values_NoDup c : Wf c -> NoDup (map o_id (c_values c)).
@@ -150,16 +182,31 @@ Proof.
     rewrite andb_true_iff. tauto.
 Qed.
 
-Theorem coll_search_reach c globs desc : Wf c -> ff_free globs ->
-  let reached := coll_search_ids globs desc c in
+Lemma coll_search_count_iter c globs desc limit : Wf c -> ff_free globs -> 1 <= limit ->
+  out_count (search_multi globs no_filter limit true desc (map vkey (search_values c))) =
+  N.min limit (N.of_nat (length (filter (search_hit globs) (scan_ids c)))).
+Proof.
+  intros W Hff Hl. unfold scan_ids, search_values. rewrite <- (search_len c globs W).
+  destruct (search_multi_exact globs no_filter limit desc _ (values_vsorted c W) Hff Hl) as [_ H].
+  rewrite H, search_sel_nofilter. f_equal. f_equal.
+  transitivity (length (filter (fun e : ventry => glob_test globs (fst e)) (map vkey (c_values c)))).
+  - destruct desc; [|reflexivity]. rewrite filter_rev_comm, rev_length. reflexivity.
+  - rewrite filter_map_comm, map_length. reflexivity.
+Qed.
+
+Lemma values_le_objs c : Wf c -> (length (search_values c) <= length (scan_ids c))%nat.
+Proof. intros W. rewrite (values_length c W). apply filter_length_le. Qed.
+
+Theorem coll_search_reach c globs desc lim : Wf c -> ff_free globs -> N.of_nat (length (search_values c)) < lim ->
+  let reached := coll_search_ids globs desc c lim in
   reached = map o_id (filter (value_hit globs) (dir desc (search_values c))) /\
   (forall id, In id reached <->
      exists o, cget c id = Some o /\ o_spatial o = false /\ glob_test globs (o_str o) = true) /\
   NoDup reached /\
-  (forall limit, coll_search_count globs desc c limit =
+  (forall limit, 1 <= limit -> coll_search_count globs desc c limit =
                  N.min limit (N.of_nat (length (filter (search_hit globs) (scan_ids c))))).
 Proof.
-  intros W Hff reached. pose proof (coll_search_ids_exact c globs desc W Hff) as E. fold reached in E.
+  intros W Hff Hlim reached. pose proof (coll_search_ids_exact c globs desc lim W Hff Hlim) as E. fold reached in E.
   destruct (paths_agree c W) as (_ & P2 & _).
   split; [exact E|]. split; [|split].
   - intros id. rewrite E, in_map_iff. split.
@@ -168,38 +215,44 @@ Proof.
     + intros [o [Hg [Hs Ht]]]. pose proof Hg as Hg'. apply (cget_spec c W) in Hg' as [_ Hid]. exists o.
       split; [exact Hid|]. apply filter_In. split; [|exact Ht]. apply dir_In. apply P2. rewrite Hid. auto.
   - rewrite E. apply NoDup_map_filter. rewrite <- dir_map. apply dir_NoDup. apply (values_NoDup c W).
-  - intros limit. unfold coll_search_count, scan_ids. rewrite <- (search_len c globs W).
-    destruct (glob_everything globs) eqn:Ge.
-    + destruct (counters_are_lengths c W) as [Hs _]. unfold search_count_shortcut. rewrite Hs.
+  - intros limit Hl. unfold coll_search_count. destruct (glob_everything globs) eqn:Ge.
+    + unfold scan_ids. rewrite <- (search_len c globs W).
+      destruct (counters_are_lengths c W) as [Hs _]. unfold search_count_shortcut. rewrite Hs.
       rewrite (shortcut_is_iter _ 0 limit (search_values c) eq_refl), iter_count_0.
       rewrite filter_all; [reflexivity|]. intros o. apply everything_test. exact Ge.
-    + fold reached. rewrite iter_count_0, E, map_length, dir_length. reflexivity.
+    + apply coll_search_count_iter; assumption.
 Qed.
 
 (* ---------- after every history of Set / Delete ---------- *)
 
-Theorem sel_paths_any_history ops globs desc : ff_free globs ->
+Theorem sel_paths_any_history ops globs desc lim : ff_free globs ->
   let c := run ops in
-  (forall id, In id (coll_scan_ids globs desc c) <-> exists o, cget c id = Some o /\ glob_test globs id = true) /\
-  (forall id, In id (coll_search_ids globs desc c) <->
+  N.of_nat (length (scan_ids c)) < lim ->
+  (forall id, In id (coll_scan_ids globs desc c lim) <-> exists o, cget c id = Some o /\ glob_test globs id = true) /\
+  (forall id, In id (coll_search_ids globs desc c lim) <->
      exists o, cget c id = Some o /\ o_spatial o = false /\ glob_test globs (o_str o) = true) /\
-  NoDup (coll_scan_ids globs desc c) /\ NoDup (coll_search_ids globs desc c) /\
-  (forall limit, coll_scan_count globs desc c limit = N.min limit (N.of_nat (length (coll_scan_ids globs desc c)))) /\
-  (forall limit, coll_search_count globs desc c limit = N.min limit (N.of_nat (length (coll_search_ids globs desc c)))).
+  NoDup (coll_scan_ids globs desc c lim) /\ NoDup (coll_search_ids globs desc c lim) /\
+  (forall limit, 1 <= limit ->
+     coll_scan_count globs desc c limit = N.min limit (N.of_nat (length (coll_scan_ids globs desc c lim)))) /\
+  (forall limit, 1 <= limit ->
+     coll_search_count globs desc c limit = N.min limit (N.of_nat (length (coll_search_ids globs desc c lim)))).
 Proof.
-  intros Hff c. pose proof (wf_run ops) as W. fold c in W.
-  destruct (coll_scan_reach c globs desc W Hff) as (E1 & I1 & N1 & C1).
-  destruct (coll_search_reach c globs desc W Hff) as (E2 & I2 & N2 & C2).
+  intros Hff c Hlim. pose proof (wf_run ops) as W. fold c in W.
+  assert (Hlim2 : N.of_nat (length (search_values c)) < lim) by (pose proof (values_le_objs c W); lia).
+  destruct (coll_scan_reach c globs desc lim W Hff Hlim) as (E1 & I1 & N1 & C1).
+  destruct (coll_search_reach c globs desc lim W Hff Hlim2) as (E2 & I2 & N2 & C2).
   repeat split; try (apply I1); try (apply I2); auto.
-  - intros limit. rewrite C1, E1, map_length, dir_length. reflexivity.
-  - intros limit. rewrite C2, E2, map_length, dir_length. unfold scan_ids. rewrite <- (search_len c globs W). reflexivity.
+  - intros limit Hl. rewrite (C1 limit Hl), E1, map_length, dir_length. reflexivity.
+  - intros limit Hl. rewrite (C2 limit Hl), E2, map_length, dir_length. unfold scan_ids. rewrite <- (search_len c globs W). reflexivity.
 Qed.
 
 (* ASC and DESC reach the same ids, in opposite order *)
-Theorem sel_desc_reverses c globs : Wf c -> ff_free globs ->
-  coll_scan_ids globs true c = rev (coll_scan_ids globs false c) /\
-  coll_search_ids globs true c = rev (coll_search_ids globs false c).
+Theorem sel_desc_reverses c globs lim : Wf c -> ff_free globs -> N.of_nat (length (scan_ids c)) < lim ->
+  coll_scan_ids globs true c lim = rev (coll_scan_ids globs false c lim) /\
+  coll_search_ids globs true c lim = rev (coll_search_ids globs false c lim).
 Proof.
-  intros W Hff. rewrite !coll_scan_ids_exact, !coll_search_ids_exact by assumption. cbn [dir].
+  intros W Hff Hlim.
+  assert (Hlim2 : N.of_nat (length (search_values c)) < lim) by (pose proof (values_le_objs c W); lia).
+  rewrite !coll_scan_ids_exact, !coll_search_ids_exact by assumption. cbn [dir].
   rewrite !filter_rev_comm, !map_rev. split; reflexivity.
 Qed.
